@@ -77,10 +77,42 @@ def obligation_id(unit, e):
     return "%s::%s::%s[%s]" % (unit, e["owner"], slug(e["msg"])[:48], e["site"])
 
 def run_unit(unit, strict=True, rlimit=None, tag="", text_override=None, threads=None, extra_args=None, pid=None):
+    """Run the unit; if the Verus/rustc front end rejects the woven file and some function's source
+    differs from the pinned skeleton, retry once with that function's inner annotations dropped
+    (contract only): a changed function whose proof script no longer fits is then decided by its
+    contract alone (it verifies or it fails an obligation), instead of ending as a tooling error."""
+    r = _run_once(unit, strict, rlimit, tag, text_override, threads, extra_args, pid, (), ())
+    if text_override is not None:
+        return r
+    extras = []; degrade = set()
+    for attempt in range(3):
+        if r.status != "tool" or r.built is None:
+            return r
+        missing = _missing_items(r.stderr)
+        new = [m for m in missing if m not in extras]
+        if not new and (not r.built.changed or degrade >= r.built.changed):
+            return r
+        extras += new
+        degrade |= set(r.built.changed)
+        r2 = _run_once(unit, strict, rlimit, tag + "-retry%d" % (attempt + 1), text_override, threads, extra_args, pid, tuple(degrade), tuple(extras))
+        r2.degraded = sorted(degrade); r2.auto_extracted = ["%s%s" % ((t + "::") if t else "", n) for t, n in extras]
+        r2.first_attempt_errors = r.tool_errors[:5]
+        r = r2
+    return r
+
+def _missing_items(stderr):
+    out = []
+    for m in re.finditer(r"cannot find (?:function|value|type|struct, variant or union type|trait|function, tuple struct or tuple variant) `(\w+)` in this scope", stderr):
+        if (None, m.group(1)) not in out: out.append((None, m.group(1)))
+    for m in re.finditer(r"no (?:method|function or associated item) named `(\w+)` found for (?:struct|enum|reference|mutable reference) `&?(?:mut )?(\w+)", stderr):
+        if (m.group(2), m.group(1)) not in out: out.append((m.group(2), m.group(1)))
+    return out
+
+def _run_once(unit, strict, rlimit, tag, text_override, threads, extra_args, pid, degrade, extras=()):
     t0 = time.time()
     res = UnitResult(unit)
     try:
-        built = U.build(unit, strict=strict, pid=pid)
+        built = U.build(unit, strict=strict, pid=pid, degrade=degrade, extras=extras)
     except U.LostAnchor as ex:
         res.status = "tool"; res.tool_errors.append(str(ex)); res.wall = time.time() - t0; return res
     except Exception as ex:
